@@ -44,6 +44,9 @@ def parseElem : String → Option Elem
   | "u64" => some .u64
   | "u128" => some .u128
   | "us" => some .usize
+  | "unit" => some .unit
+  | "opt" => some .optU8
+  | "pair" => some .pairU8U16
   | _ => none
 
 def parseOp (s : String) : Option DOp :=
@@ -60,7 +63,12 @@ def parseOp (s : String) : Option DOp :=
   | "d" => some .drain
   | _ =>
     let rest := (s.drop 1).toString
-    if s.startsWith "m" then
+    if s.startsWith "r" then
+      -- `read::<D>()` is `D::read_from`: one element
+      match parseElem rest with
+      | some e => some (.op (.readMany e 1))
+      | none => none
+    else if s.startsWith "m" then
       match rest.splitOn ":" with
       | [ty, n] =>
         match parseElem ty, n.toNat? with
